@@ -261,7 +261,7 @@ func (c *mctx) genScript(depth int) []sop {
 				for j := 0; j < k; j++ {
 					as = append(as, c.gen(depth+1))
 				}
-				ops = append(ops, sop{tag: "pf", p: []string{"n:%v|%d", "[%s]", "%v %v", "lit‹"}[r.Intn(4)], args: as})
+				ops = append(ops, sop{tag: "pf", p: []string{"n:%v|%d", "[%s]", "%v %v", "lit‹", "e:%w", "%w|%v"}[r.Intn(6)], args: as})
 			}
 		case 6:
 			if r.Chance(50) {
